@@ -4,13 +4,13 @@ let c13_rd_table () =
   let names = rd_list rd_nat () in
   let rows = c13_rd_rows () in
   { tb_names = names; tb_rows = rows }
-(* reader := 0 table | 1 table | 2 table batchlens | 3 reader map | 4 readers | 5 reader k fn
+(* reader := 0 table | 1 table | 2 table batchlens batchlens0 | 3 reader map | 4 readers | 5 reader k fn
    fn := 0 z (const) | 1 n (copy of column n) | 2 (len of the frame) | 3 z (one value only) *)
 let rec c13_rd_reader () =
   match rd_int () with
   | 0 -> TrFrame (c13_rd_table ())
   | 1 -> TrCsv (c13_rd_table ())
-  | 2 -> let t = c13_rd_table () in let bl = rd_list rd_nat () in TrParquet (t, bl)
+  | 2 -> let t = c13_rd_table () in let bl = rd_list rd_nat () in let bl0 = rd_list rd_nat () in TrParquet (t, bl, bl0)
   | 3 -> let r = c13_rd_reader () in let m = rd_list (rd_pair rd_nat rd_nat) () in TrMapped (r, m)
   | 4 -> TrJoined (rd_list c13_rd_reader ())
   | 5 -> let r = c13_rd_reader () in
@@ -36,11 +36,11 @@ let () =
       pr_result (pr_list c13_pr_frame) (tr_chunks r c cols));
   reg "c13.names" (fun () -> let r = c13_rd_reader () in pr_list pr_nat (tr_names r));
   reg "c13.writer" (fun () ->
-      let b = rd_nat () in let k = c13_rd_kind () in let ds = rd_list (rd_list rd_z) () in
-      pr_result (pr_pair (pr_list (pr_list pr_z)) pr_nat) (bw_from_suffix b k ds));
+      let b = rd_nat () in let k = c13_rd_kind () in let ds = rd_list (rd_list (rd_list rd_z)) () in
+      pr_result (pr_pair (pr_list (pr_list (pr_list pr_z))) pr_nat) (bw_from_suffix b k ds));
   reg "c13.buffered" (fun () ->
-      let b = rd_nat () in let k = c13_rd_kind () in let ds = rd_list (rd_list rd_z) () in
-      pr_result (fun s -> pr_list (pr_list pr_z) s.bw_emitted; pr_list pr_z (bw_pending s))
+      let b = rd_nat () in let k = c13_rd_kind () in let ds = rd_list (rd_list (rd_list rd_z)) () in
+      pr_result (fun s -> pr_list (pr_list (pr_list pr_z)) s.bw_emitted; pr_list (pr_list pr_z) (bw_pending s))
         (bw_run b k ds));
   reg "c13.pure" (fun () ->
       let c = rd_nat () in let l = rd_list rd_z () in
